@@ -5,6 +5,21 @@ HERE = os.path.dirname(os.path.dirname(os.path.abspath(__file__)))
 ALL = ["C%02d" % i for i in range(1, 21)]
 
 CHECKS = {
+ "C09": dict(
+  category="model_checking",
+  text="Cst.tla is a character-level transcription of cst_scanner/cst_scan/cst_parser (str.strip, balanced_parentheses, "
+       "is_triple_quoted, the shortest-match statement splitter). TLC checks Conservation in every state plus Lossless, "
+       "NodesLossless and Tiling exhaustively for all sources of <=3 (quick) / <=4 (thorough, 137k sources, plus 200k random "
+       "behaviours of <=5 tokens) tokens over a 19-token lexical alphabet. Binding: every enumerated source is concretised and "
+       "run through the real scanner/parser and the same predicates are evaluated on the real output (verdict); chunk boundaries "
+       "and line numbers are compared with the model (diagnostic). Repository files and seeded mutations are scanned with "
+       "cst_scan wrapped and the recorded per-call length events validated by TLC against AbsCst (TraceCst.tla, with a "
+       "corrupted-trace binding demonstration on every run).",
+  design_ref="DESIGN.md section 4, C09",
+  note="Trusted: the token->character concretisation; identifiers are represented by 'x'. Strings outside the lexical alphabet "
+       "are covered only by the recorded file/mutation runs.",
+  technique="TLA+ transcription of the scanner, TLC exhaustive over token sequences, every behaviour replayed into the real "
+            "code; recorded scans trace-validated against an abstract scanner"),
  "C18": dict(
   category="model_checking",
   text="Imports.tla is CPython's import machine (sys.modules status, per-module bound names, submodule attribute set on "
